@@ -22,7 +22,7 @@ while args:
         keep = True
     else:
         props.append(a)
-tag = f"{name}_{'_'.join(props)}_{seed or 1}_{os.getpid()}"
+tag = f"{name.replace('/', '_').replace(':', '_')}_{'_'.join(props)}_{seed or 1}_{os.getpid()}"
 # a pool of persistent slots (the cargo target directories survive, so builds are incremental); one evaluation per slot at a time
 import fcntl
 os.makedirs("/tmp/ns", exist_ok=True)
@@ -48,7 +48,9 @@ try:
         subprocess.run(["git", "-C", f"{D}/repo", "checkout", "-q", "--", "."], check=True)
         subprocess.run(["git", "-C", f"{D}/repo", "clean", "-fdq"], check=True)
         subprocess.run(["git", "-C", f"{D}/repo", "checkout", "-q", "--detach", head], check=True)
-    if name != "clean":
+    if name.startswith("patch:"):
+        subprocess.run(["git", "-C", f"{D}/repo", "apply", name[6:]], check=True)
+    elif name != "clean":
         subprocess.run(["git", "-C", f"{D}/repo", "apply", f"{V}/seeded/{name}/patch.diff"], check=True)
     first = not os.path.exists(f"{D}/verif")
     subprocess.run(["rsync", "-a", "--delete", "--exclude", ".git", "--exclude", ".work", "--exclude", "replays"] +
@@ -63,6 +65,11 @@ try:
         r = subprocess.run(["unshare", "-m", "bash", "-c", script], capture_output=True, text=True, env=env)
         viol = [l for l in r.stdout.splitlines() if l.startswith("VIOLATION")]
         res[p] = dict(exit=r.returncode, violation_lines=viol[:3], wall_s=round(time.time() - t0, 1), tier=tier)
+        try:
+            cov = json.load(open(f"{D}/verif/evidence/{p}.json"))["coverage"]
+            res[p]["others"] = len(cov.get("nonconformance_attributed_to_other_properties") or [])
+        except Exception:
+            pass
         print(name, p, "seed", seed or 1, "exit", r.returncode, viol[:1], f"{time.time() - t0:.0f}s", flush=True)
         if r.returncode == 2 or (name == "clean" and r.returncode != 0):
             print(r.stdout[-2500:], flush=True)
@@ -78,7 +85,10 @@ finally:
     if name != "clean":
         subprocess.run(["git", "-C", f"{D}/repo", "checkout", "-q", "--", "."])
     lockf.close()
-if name != "clean":
+if name.startswith("patch:"):
+    with open(os.environ.get("NS_RESULTS", "/tmp/mut/results.jsonl"), "a") as f:
+        f.write(json.dumps(dict(patch=name[6:], res=res)) + "\n")
+elif name != "clean":
     mp = f"{V}/seeded/{name}/meta.json"
     meta = json.load(open(mp)) if os.path.exists(mp) else {}
     meta.setdefault("framework", {}).update(res)
